@@ -404,7 +404,7 @@ class PyOracle:
         self.unsupported = []   # constructs this oracle does not model (lambda, comprehension, ...)
         self.line_ctx = {}      # line of a statement -> (depth of compound-statement nesting inside its scope,
         #                                                  inside an except-clause body?)
-        self._ctx = (0, False)
+        self._ctx = (0, False, False)
         self._visit_body(self.tree.body, self.module)
 
     # -- matching symtable children to ast nodes -------------------------------------------------
@@ -419,11 +419,13 @@ class PyOracle:
         'scope' = body of a new scope"""
         saved = self._ctx
         if nest == "block":
-            self._ctx = (saved[0] + 1, saved[1])
+            self._ctx = (saved[0] + 1, saved[1], saved[2])
+        elif nest == "loop":          # for / with bodies: FOR_KIND / WITH_KIND scopes in lian
+            self._ctx = (saved[0] + 1, saved[1], True)
         elif nest == "except":
-            self._ctx = (saved[0] + 1, True)
+            self._ctx = (saved[0] + 1, True, saved[2])
         elif nest == "scope":
-            self._ctx = (0, False)
+            self._ctx = (0, False, False)
         for st in stmts:
             self.line_ctx.setdefault(st.lineno, self._ctx)
             self._visit_stmt(st, ps)
@@ -485,13 +487,13 @@ class PyOracle:
         elif isinstance(st, (ast.For, ast.AsyncFor)):
             self._names_in_expr(st.target, ps)
             self._names_in_expr(st.iter, ps)
-            self._visit_body(st.body, ps, "block")
+            self._visit_body(st.body, ps, "loop")
             self._visit_body(st.orelse, ps, "block")
         elif isinstance(st, (ast.With, ast.AsyncWith)):
             for it in st.items:
                 self._names_in_expr(it.context_expr, ps)
                 self._names_in_expr(it.optional_vars, ps)
-            self._visit_body(st.body, ps, "block")
+            self._visit_body(st.body, ps, "loop")
         elif isinstance(st, ast.Try):
             self._visit_body(st.body, ps, "block")
             for h in st.handlers:
@@ -587,7 +589,7 @@ class PyOracle:
                 continue
             if (where == "own" and ps is not owner_ps) or (where == "declared" and ps is owner_ps):
                 continue
-            depth, in_exc = self.line_ctx.get(ln, (0, False))
+            depth, in_exc, scoped = self.line_ctx.get(ln, (0, False, False))
             if role == "param":
                 out.add("param")
             elif role == "usedef":
@@ -599,7 +601,9 @@ class PyOracle:
             elif in_exc and ps.kind == "module" and not isinstance(extra, tuple) and extra not in ("def", "class"):
                 out.add("except-body")
             elif isinstance(extra, tuple):
-                out.add("import-in-block" if (depth > 0 and ps.kind != "module") else "import")
+                # at module level if / try blocks are 'implicit root scopes' (visible everywhere), for / with
+                # blocks are scopes of their own
+                out.add("import-in-block" if (depth > 0 and (ps.kind != "module" or scoped)) else "import")
             elif extra in ("def", "class"):
                 out.add(extra + ("-in-block" if (depth > 0 and ps.kind != "module") else ""))
             else:
@@ -610,11 +614,21 @@ class PyOracle:
 
     def module_block_imports(self):
         """names bound by an import statement that sits inside a compound statement at module level"""
-        out = set()
+        out = {}
         for (ln, n, role, ps, extra) in self.occs:
-            if role == "def" and isinstance(extra, tuple) and ps.kind == "module" and \
-                    self.line_ctx.get(ln, (0, False))[0] > 0:
-                out.add(n)
+            ctx = self.line_ctx.get(ln, (0, False, False))
+            if role == "def" and isinstance(extra, tuple) and ps.kind == "module" and ctx[0] > 0 and not ctx[2]:
+                out.setdefault(n, []).append(ln)
+        return out
+
+    def import_lines(self, owner_ps, name):
+        """lines of the import statements that bind (owner scope, name)"""
+        out = []
+        for (ln, n, role, ps, extra) in self.occs:
+            if n == name and role == "def" and isinstance(extra, tuple):
+                o, how = self.owner(ps, n)
+                if o is owner_ps:
+                    out.append(ln)
         return out
 
     def scope_by_ident(self, kind, line):
@@ -797,13 +811,21 @@ def compare_unit(unit, oracle, bind, lang="python", imports=None, col=None):
                 # two different root causes: (owner is something else) the block's import row is an implicit root
                 # scope preferred over the visible declaration; (owner is the module) the import statement is not
                 # at unit top level, so it is only analysed when def-use analysis reaches it
-                eks.append("module-level-name-imported-inside-a-block" if owner.kind == "module" else
-                           "name-also-imported-inside-a-module-level-block")
+                if owner.kind != "module":
+                    eks.append("name-also-imported-inside-a-module-level-block")
+                elif ps.kind != "module" or line < min(block_imports[name]):
+                    # (a module-level use after the import statement has been analysed must resolve)
+                    eks.append("module-level-name-imported-inside-a-block")
             if owner.kind == "func" and owner.parent is not None and owner.parent.kind == "class" \
                     and ps is not owner and _first_param(owner) == name:
                 eks.append("first-parameter-of-method-captured-by-nested-scope")
             if forms and not (forms & oracle.HOISTABLE):
                 eks.append(UNHOISTED_KIND.get(frozenset(forms), "bound-only-by-unhoisted-forms(mixed)"))
+            if owner.kind != "module" and imports is None:
+                ils = oracle.import_lines(owner, name)
+                if ils and (line < min(ils) or ps is not owner):
+                    # textually earlier, or in a nested function (analysed before the importing function)
+                    eks.append("name-used-before-its-import-statement")
             eks.append(ekind)
             cks = []
             base_ck = chosen_kind(d, unit, ps)
@@ -823,6 +845,14 @@ def compare_unit(unit, oracle, bind, lang="python", imports=None, col=None):
                                 cks.append("local-row-under-nonlocal-decl")
                         except KeyError:
                             pass
+            if d["kind"] == "decl" and d["unit"] == unit and d["op"] == "class_decl" and decl_name(d) == name:
+                # correct_scopes registers EVERY class_decl below a class's `nested` block as a member of that
+                # class, also those nested deeper
+                chain = bind.owner_chain(d["stmt_id"])
+                classes = [(k, ln) for (k, ln, nm, sid) in chain if k == "class"]
+                mine = {(q.kind, q.line) for q in ps.chain()}
+                if len(classes) >= 2 and any(c in mine for c in classes[1:]) and classes[0] not in mine:
+                    cks.append("class-row-nested-deeper-in-own-or-enclosing-class")
             cks.append(base_ck)
             ck, ekind = pick_signature(lang, ukind, cks, eks)
             out.append(((lang, ukind, ck, ekind),
@@ -955,11 +985,11 @@ def tree_strategy(max_depth=3, extra_forms=False, imports=False):
                 if draw(st.booleans()):
                     s["orelse"] = [simple(kind, depth, True)]
                 return s
-            if extra_forms and not in_block:
+            if extra_forms and not in_block and r < 98:
                 budget[0] -= 1
                 return {"t": draw(st.sampled_from(["with", "except"])), "n": draw(name_st),
                         "body": [simple(kind, depth, True)]}
-            if imports and kind != "class":
+            if imports and kind != "class" and (not in_block or r >= 90):
                 if draw(st.booleans()):
                     return {"t": "import", "m": draw(st.sampled_from(["os", "sys"])), "as": draw(name_st)}
                 return {"t": "from", "m": "os", "n": draw(st.sampled_from(["path", "sep"])), "as": draw(name_st)}
@@ -1013,6 +1043,15 @@ def tree_strategy(max_depth=3, extra_forms=False, imports=False):
         # trailing module-level reads: sibling/inner declarations must not leak out
         for _ in range(draw(st.integers(0, 2))):
             t["body"].append({"t": "read", "n": draw(read_name_st), "f": "plain"})
+        if imports and draw(st.integers(0, 5)) == 0:
+            # a module-level import inside a block, then a module-level use: Python has no block scope
+            free = [n for n in ALPHABET if n not in bound_names(t)]
+            if free:
+                n = draw(st.sampled_from(free))
+                imp = {"t": "import", "m": "sys", "as": n} if draw(st.booleans()) else \
+                    {"t": "from", "m": "os", "n": "sep", "as": n}
+                t["body"].append({"t": draw(st.sampled_from(["if", "for"])), "n": "u0", "body": [imp], "orelse": []})
+                t["body"].append({"t": "read", "n": n, "f": "plain"})
         return t
 
     return tree()
